@@ -3,6 +3,8 @@ import re
 from mirsym import mir, symex, smt
 from mirsym.symex import bvconst, mk_and, mk_not, mk_eq
 from mirsym_run import Q
+import os
+from common import *
 
 LEVEL = "model_checking"
 EXPLANATION = ("mirsym Mode A: the per-term planning arithmetic of both download writers and the term trimming of "
@@ -263,14 +265,55 @@ def build_trim(fns):
     raise NotImplementedError
 
 
+def build_structure(fns):
+    """Order / positioning facts the arithmetic relies on: the sequential writer consumes the term downloads in plan
+    order; a positioned file writer never truncates the output file and seeks to the offset it was given."""
+    from mirsym import modeb
+    sc = smt.Script("c17_writer_structure")
+    g = modeb.CFG(mir.find_fn(fns, r"reconstruct_file_to_writer::\{closure#0\}$"))
+    ordered = g.blocks_calling(r"as StreamExt>::buffered$")
+    unordered = g.blocks_calling(r"buffer_unordered|FuturesUnordered")
+    sc.query("sequential writer: term downloads are consumed through an order-preserving buffer", ["false"] if ordered and not unordered else ["true"])
+    f = mir.find_fn(fns, r"interface::<impl at [^>]*>::get_writer_at$|FileProvider.*get_writer_at$")
+    s = symex.Sym(f, prefix="fw.", models=symex.STD_MODELS, max_visits=1)
+    paths = [p for p in s.run("bb0", max_paths=2000) if p.end == "return"]
+    n = 0
+    for i, p in enumerate(paths):
+        tr = [e for e in p.events if re.search(r"OpenOptions::truncate$", e[0])]
+        for e in tr:
+            n += 1
+            sc.query("positioned file writer: the output file is never truncated when a writer is opened [path %d]" % i, p.pc + [e[1][1] if e[1][1] in ("true", "false") else "true"])
+    if n == 0:
+        sc.query("positioned file writer: truncate(false) is requested explicitly", ["true"])
+    sc.query("witness: structure query reachable", ["true"], expect="sat", kind="witness")
+    sc.declare(s.decls)
+    return [sc]
+
+
+def replay(model, fnd, prop):
+    env = base_env()
+    env["CARGO_TARGET_DIR"] = os.path.join(BUILD, "replay_target")
+    rc, out = sh(["cargo", "test", "--offline", "--test", "c17_reconstruction_native"], cwd=os.path.join(VERIF, "replay"), env=env, timeout=2400,
+                 log=os.path.join(LOGS, "replay_c17.log"))
+    path = os.path.join(VERIF, "replay", "tests", "c17_reconstruction_native.rs")
+    if "test result: FAILED" in out:
+        m = re.search(r"C17 violated: [^\n]*", out)
+        return True, path, m.group(0)[:260] if m else "native replay fails"
+    if re.search(r"test result: ok. [1-9]\d* passed", out):
+        return False, path, "native replay passes: both writers output the requested slices"
+    return None, path, "native replay inconclusive (rc=%s)" % rc
+
+
 _F = ["cas_client::remote_client::RemoteClient::reconstruct_file_to_writer_parallel::{closure#0}::{closure#1}",
       "cas_client::remote_client::RemoteClient::reconstruct_file_to_writer::{closure#0} (loop body region)"]
 
 SMT = [
-    Q("c17_parallel_k4", "parallel writer planning closure, 4 chained terms", "cas_client", lambda fns: build_writer(fns, 4, "parallel"), functions=_F[:1], bounds="k=4 terms"),
-    Q("c17_sequential_k4", "sequential writer loop body, 4 chained terms", "cas_client", lambda fns: build_writer(fns, 4, "sequential"), functions=_F[1:], bounds="k=4 terms"),
-    Q("c17_agree_k4", "both writers compute the same slice per term", "cas_client", lambda fns: build_agree(fns, 4), functions=_F, bounds="k=4 terms"),
-    Q("c17_parallel_k6", "parallel writer, 6 chained terms", "cas_client", lambda fns: build_writer(fns, 6, "parallel"), tier="thorough", functions=_F[:1], bounds="k=6 terms", timeout=900),
-    Q("c17_sequential_k6", "sequential writer, 6 chained terms", "cas_client", lambda fns: build_writer(fns, 6, "sequential"), tier="thorough", functions=_F[1:], bounds="k=6 terms", timeout=900),
-    Q("c17_agree_k6", "writers agree, 6 terms", "cas_client", lambda fns: build_agree(fns, 6), tier="thorough", functions=_F, bounds="k=6 terms", timeout=900),
+    Q("c17_writer_structure", "ordering / positioning facts the planning arithmetic relies on", "cas_client", build_structure, functions=["cas_client::remote_client::RemoteClient::reconstruct_file_to_writer", "cas_client::interface::FileProvider::get_writer_at"],
+      bounds="all paths", replay=replay, solvers=("z3",)),
+    Q("c17_parallel_k4", "parallel writer planning closure, 4 chained terms", "cas_client", lambda fns: build_writer(fns, 4, "parallel"), functions=_F[:1], bounds="k=4 terms", replay=replay),
+    Q("c17_sequential_k4", "sequential writer loop body, 4 chained terms", "cas_client", lambda fns: build_writer(fns, 4, "sequential"), functions=_F[1:], bounds="k=4 terms", replay=replay),
+    Q("c17_agree_k4", "both writers compute the same slice per term", "cas_client", lambda fns: build_agree(fns, 4), functions=_F, bounds="k=4 terms", replay=replay),
+    Q("c17_parallel_k6", "parallel writer, 6 chained terms", "cas_client", lambda fns: build_writer(fns, 6, "parallel"), tier="thorough", functions=_F[:1], bounds="k=6 terms", timeout=900, replay=replay),
+    Q("c17_sequential_k6", "sequential writer, 6 chained terms", "cas_client", lambda fns: build_writer(fns, 6, "sequential"), tier="thorough", functions=_F[1:], bounds="k=6 terms", timeout=900, replay=replay),
+    Q("c17_agree_k6", "writers agree, 6 terms", "cas_client", lambda fns: build_agree(fns, 6), tier="thorough", functions=_F, bounds="k=6 terms", timeout=900, replay=replay),
 ]
